@@ -91,7 +91,7 @@ def caller_aliases(P, fd):
     return out
 
 
-def decide(pid, results, tier, t0, level="other", extra_assumptions=None, design_ref=None, controls=None, P=None):
+def decide(pid, results, tier, t0, level="other", extra_assumptions=None, design_ref=None, controls=None, P=None, write_evidence=True):
     """Compare findings with known findings, print lines, write evidence, return exit status."""
     known = load_known()
     known_keys = {}
@@ -116,7 +116,12 @@ def decide(pid, results, tier, t0, level="other", extra_assumptions=None, design
                 known_hit.append(fd)
             else:
                 violations.append(fd)
-    replay_dir = os.path.join(VERIF, "evidence", "replay", pid)
+    if write_evidence:
+        replay_dir = os.path.join(VERIF, "evidence", "replay", pid)
+    else:
+        # --no-evidence (self-test runs on a deliberately changed /repo): leave the committed evidence alone
+        import tempfile
+        replay_dir = tempfile.mkdtemp(prefix="vreplay_%s_" % pid)
     os.makedirs(replay_dir, exist_ok=True)
     for fn in os.listdir(replay_dir):
         try:
@@ -199,11 +204,12 @@ def decide(pid, results, tier, t0, level="other", extra_assumptions=None, design
         "wall_s": round(time.time() - t0, 2),
         "violations": len(violations),
     }
-    os.makedirs(os.path.join(VERIF, "evidence"), exist_ok=True)
-    tmp = os.path.join(VERIF, "evidence", "%s.json.%d" % (pid, os.getpid()))
-    with open(tmp, "w") as f:
-        json.dump(ev, f, indent=1)
-    os.replace(tmp, os.path.join(VERIF, "evidence", "%s.json" % pid))
+    if write_evidence:
+        os.makedirs(os.path.join(VERIF, "evidence"), exist_ok=True)
+        tmp = os.path.join(VERIF, "evidence", "%s.json.%d" % (pid, os.getpid()))
+        with open(tmp, "w") as f:
+            json.dump(ev, f, indent=1)
+        os.replace(tmp, os.path.join(VERIF, "evidence", "%s.json" % pid))
     print("%s: %d obligations, %d discharged, %d known findings, %d unclassified, %d new violations (%.1fs)"
           % (pid, obligations, discharged, len(known_hit), unclassified, len(violations), time.time() - t0))
     return 1 if violations else 0
